@@ -160,14 +160,12 @@ structure Inputs where
 
 def updateAt {α : Type} (f : Nat → α) (i : Nat) (v : α) : Nat → α := fun j => if j = i then v else f j
 
-/-- `RegisteredDecoys.register(d)` for worker `i`'s object: track it if nothing is tracked; an entry
-that is already valid stays as it is (announced once); otherwise the entry is validated **with `d` as
-the stored object** — `d` is the object whose `Covert` passed the checks of this worker's ingest (the
-repaired code replaces a copy that another worker tracked first). -/
+/-- `RegisteredDecoys.register(d)`: track `d` if nothing is tracked; then the **stored** object — whatever
+`registrationExists(d)` returns — is marked valid, unless it already is (announced once). -/
 def registerStep (st : Option Entry) (i : Nat) : Option Entry :=
   match st with
   | none => some ⟨i, true⟩
-  | some e => if e.valid then some e else some ⟨i, true⟩
+  | some e => some ⟨e.ptr, true⟩
 
 /-- one step of worker `i` (one segment between two scheduling points of `ingestRegistration`) -/
 def step (env : Env Net Pat IP) (pol : Policy Net Pat) (inp : Inputs) (rs : Resolver IP) (w : World) (i : Nat) :
@@ -177,9 +175,12 @@ def step (env : Env Net Pat IP) (pol : Policy Net Pat) (inp : Inputs) (rs : Reso
     { w with pc := updateAt w.pc i (.afterExists w.store.isSome) }
   | .afterExists true =>            -- duplicate path: TrackRegistration bumps the counter; return
     { w with pc := updateAt w.pc i .done }
-  | .afterExists false =>           -- TrackRegistration: stores this object unless one is stored
-    { w with pc := updateAt w.pc i .afterTrack,
-             store := match w.store with | none => some ⟨i, false⟩ | some e => some e }
+  | .afterExists false =>
+    -- TrackRegistration stores this object unless one is stored; then (the repaired code) the worker
+    -- looks at what is tracked: if it is another worker's object, this message is a duplicate
+    match w.store with
+    | none => { w with pc := updateAt w.pc i .afterTrack, store := some ⟨i, false⟩ }
+    | some _ => { w with pc := updateAt w.pc i .done }
   | .afterTrack =>                  -- covert policy; overwrite of this object's Covert; C07's later steps
     let r := parseOrResolve env pol (inp.ans i) rs w.cursor
     if r.out = "" then { w with pc := updateAt w.pc i .done, cursor := r.cursor }
